@@ -139,10 +139,7 @@ func main() {
 			undone = append(undone, tr.Undone...)
 			undone = append(undone, tr.Normalized...)
 		}
-		if *showSrc {
-			for k, v := range overlay {
-				fmt.Printf("==== %s\n%s\n", k, v)
-			}
+		if *showSrc && len(overlay) == 0 {
 			os.Exit(0)
 		}
 		if len(overlay) > 0 {
@@ -152,6 +149,46 @@ func main() {
 				inlined = nil
 			} else {
 				p = p2
+				// further rounds: what the first round wrote out (function
+				// literals that were arguments of an inlined helper, now local
+				// closures; calls inside inlined bodies) may be inlinable now
+				for round := 2; round <= 4; round++ {
+					inl.OwnLineDirectives = true
+					more := map[string][]byte{}
+					var kept2, inl2 []string
+					for _, pr := range []*ir.Program{p, p.Cache} {
+						tr := inl.Transform(pr.Mod, ir.ExcludedFile)
+						for k, v := range tr.Overlay {
+							more[k] = v
+						}
+						kept2 = append(kept2, tr.Kept...)
+						inl2 = append(inl2, tr.Inlined...)
+					}
+					if len(more) == 0 || len(inl2) == 0 {
+						break
+					}
+					merged := map[string][]byte{}
+					for k, v := range overlay {
+						merged[k] = v
+					}
+					for k, v := range more {
+						merged[k] = v
+					}
+					p3, err3 := ir.LoadOverlay(*repo, merged)
+					if err3 != nil {
+						inlineNote = fmt.Sprintf("inlining round %d was abandoned (the rewritten source did not load: %v); the result of the previous round was analysed", round, err3)
+						break
+					}
+					p, overlay = p3, merged
+					keptNew = kept2
+					inlined = append(inlined, inl2...)
+				}
+				if *showSrc {
+					for k, v := range overlay {
+						fmt.Printf("==== %s\n%s\n", k, v)
+					}
+					os.Exit(0)
+				}
 			}
 		}
 	}
